@@ -209,7 +209,8 @@ def _copy_(t, src):
 @tm("masked_fill")
 def _masked_fill(t, mask, value):
     if isinstance(value, Inf):
-        raise Unsupported("masked_fill with inf")
+        ops.uses_inf()
+        value = ops.inf_value(value)
     if T(value):
         value = value.at() if value.rank == 0 else value
     return ops.where(mask, value, t) if t.dtype != "b" else ew(lambda m, x: z3.If(m, zbool(value), x), [mask, t], out_dtype="b", compute=None)
@@ -245,14 +246,21 @@ for _n in ("exp", "log", "tanh", "sqrt", "cos", "sin", "sigmoid"):
     TF[_n] = TM[_n]
 
 
-@tm("isinf", "isnan")
+@tm("isinf")
 def _isinf(t):
-    # A1: float tensors hold finite reals
+    # A1: float tensors hold finite reals, except where the code itself wrote the literal infinity (A1b)
+    if getattr(cur(), "inf_declared", False) and t.dtype == "f":
+        return ew(lambda x: z3.Or(x == ops.INF, x == -ops.INF), [t], out_dtype="b", compute=None)
+    return const_tensor(t.shape, "b", False)
+
+
+@tm("isnan")
+def _isnan(t):
     return const_tensor(t.shape, "b", False)
 
 
 TF["isinf"] = _isinf
-TF["isnan"] = _isinf
+TF["isnan"] = _isnan
 
 
 @tm("isfinite")
@@ -270,6 +278,10 @@ def _red(kind):
     def f(t, dim=None, keepdim=False, **kw):
         if "axis" in kw:
             dim = kw["axis"]
+        if "keepdims" in kw:
+            keepdim = kw["keepdims"]
+        if type(t).__name__ == "MaskedSel" and kind in ("any", "all") and dim is None:
+            return getattr(t, kind)()
         return reduce(kind, t, dim, keepdim)
 
     return f
@@ -795,3 +807,20 @@ TM["sort"] = _sort
 TF["sort"] = _sort
 TM["argsort"] = lambda t, dim=-1, descending=False, **kw: _sort(t, dim, descending)[1]
 TF["argsort"] = TM["argsort"]
+
+
+class MaskedSel:
+    """x[boolean mask]: a selection of data-dependent length; only elementwise predicates followed by any()/all()
+    are modelled (any = exists a selected element, all = for all selected elements)."""
+
+    def __init__(self, t, mask):
+        self.t, self.mask = t, mask
+
+    def map(self, fn):
+        return MaskedSel(fn(self.t), self.mask)
+
+    def any(self):
+        return reduce("any", binop("and", self.mask, self.t))
+
+    def all(self):
+        return reduce("all", binop("or", unop("invert", self.mask), self.t))
